@@ -55,6 +55,8 @@ package channeldb
 //@   loop * havoc
 //@   site call WriteElement: assert dyndata(arg(1)) == height && arg(0) == addr(hint)
 //@   site call Put: assert arg(key) == retn(spendHintKey, 0) && retn(spendHintKey, 1) == nil && ret(WriteElement) == nil && arg(value) == ret(Bytes)
+//@   // every request of the batch gets the new height, unconditionally (hints must be able to move down after a reorg)
+//@   loop 0 step called(Put)
 //@   site call Bytes: assert arg(0) == addr(hint)
 //@
 //@ func (c *HeightHintCache) CommitConfirmHint$1
@@ -62,6 +64,7 @@ package channeldb
 //@   loop * havoc
 //@   site call WriteElement: assert dyndata(arg(1)) == height && arg(0) == addr(hint)
 //@   site call Put: assert arg(key) == retn(confHintKey, 0) && retn(confHintKey, 1) == nil && ret(WriteElement) == nil && arg(value) == ret(Bytes)
+//@   loop 0 step called(Put)
 //@   site call Bytes: assert arg(0) == addr(hint)
 //@
 //@ func (c *HeightHintCache) QuerySpendHint$1
